@@ -698,6 +698,18 @@ def m_bytes_decode(I, obj, args, kw):
 def m_str_encode(I, obj, args, kw):
     enc = (args[0] if args else kw.get("encoding", "utf-8")).lower().replace("-", "").replace("_", "")
     if isinstance(obj, SymStr):
+        if enc in ("utf8",):
+            # utf-8 of latin-1 text: identical when every code point is ASCII, strictly longer otherwise
+            b = obj.b
+            q = z3.Int("_qu%d" % I.ctx.next_id())
+            ascii_ = z3.ForAll([q], z3.Implies(z3.And(q >= 0, q < zi(b.length)), zi(b.get(q)) < 128))
+            j = I.ctx.fresh_int("nonascii_at")
+            non = z3.And(zi(j) >= 0, zi(j) < zi(b.length), zi(b.get(zi(j))) >= 128)
+            if I.ctx.decide_assume(ascii_, non, "utf8-ascii"):
+                return b
+            r = I.ctx.fresh_bytes("utf8_bytes")
+            I.ctx.add(zi(r.length) > zi(b.length))
+            return r
         if enc not in ("latin1", "iso88591", "l1"):
             raise Unsupported("encode(%s) of symbolic text" % enc)
         return obj.b
